@@ -165,6 +165,24 @@ def add_range_and_unit(rng, decls):
                     return
 
 
+CXX_KEYWORDS = ["auto", "switch", "class", "new", "delete", "register", "template", "this", "operator", "union", "namespace", "int"]
+EXT_FIELDS = ["receivers", "senders", "listeners", "tags", "nodes", "groups", "gateways", "consumers"]
+
+
+def add_keywords_and_lists(rng, decls):
+    """Names and values no grammar rule forbids: struct fields named like C/C++ keywords, and binding-level extension
+    fields (unknown to every shipped generator today) whose value is a LIST of several identifiers or strings."""
+    for d in decls:
+        if d["kind"] == "struct" and rng.random() < 0.15:
+            f = rng.choice(d["fields"])
+            kw = rng.choice(CXX_KEYWORDS)
+            if not any(x["name"] == kw for x in d["fields"]):
+                f["name"] = kw
+        if d["kind"] == "impl" and rng.random() < 0.3 and not d.get("signals"):
+            vals = rng.sample(["ecu", "bms", "inv", "dash", "gw", "logger", "charger"], rng.randint(2, 5))
+            d["fields"].append([rng.choice(EXT_FIELDS), [{"ident": v} for v in vals] if rng.random() < 0.5 else list(vals)])
+
+
 def mux_can_c_schema(rng):
     """fcp_can_c shape with two multiplexed signals switched by two different selector signals in one message."""
     names = K.Names(rng)
@@ -211,6 +229,7 @@ def make_pool(seed, n):
         style = rng.randrange(8)
         if rng.random() < 0.8:
             add_range_and_unit(rng, decls)
+        add_keywords_and_lists(stream(H(seed, "C17", "pool-extra", i), "extra"), decls)
         pool[f"s{len(pool)}"] = S.render(decls, style)
         if i % 2 == 0 and len(pool) < n:
             # followed by its edited version (same names, other definitions)
@@ -243,7 +262,7 @@ def run_worker(workload, hashseed):
     env["COLUMNS"] = str(workload.get("columns", 80))
     # the worker may start in another directory (PYTHONPATH is absolute): relative paths must not leak into artefacts
     cwd = {"verif": str(VERIF_ROOT), "root": "/", "tmp": tempfile.gettempdir()}.get(workload.get("cwd", "verif"), str(VERIF_ROOT))
-    p = subprocess.run([sys.executable, "-c", "from simfcp.detworker import main; main()"], input=json.dumps(workload),
+    p = subprocess.run([sys.executable] + (["-O"] if workload.get("optimize") else []) + ["-c", "from simfcp.detworker import main; main()"], input=json.dumps(workload),
                        capture_output=True, text=True, env=env, cwd=cwd, timeout=300)
     lines = [l for l in p.stdout.splitlines() if l.startswith("RESULT ")]
     if p.returncode != 0 or not lines:
@@ -293,6 +312,11 @@ def gen_run(rng, pool):
            "tz": rng.choice(["UTC", "UTC", "Asia/Tokyo", "America/Los_Angeles", "Pacific/Kiritimati"]),
            "lc_all": rng.choice(["C", "C", "C.UTF-8", "POSIX"]), "columns": rng.choice([80, 20, 300]),
            "cwd": rng.choice(["verif", "verif", "root", "tmp"])}
+    knobs = stream(H(hashseed, clock0, "c17-knobs"), "knobs")
+    # the process keeps ONE Generator object per plug-in and calls it for every generation (instead of a new one per call);
+    # the worker interpreter runs with -O
+    cfg["keep_generators"] = knobs.random() < 0.35
+    cfg["optimize"] = knobs.random() < 0.08
     n = rng.randint(5, 15)
     ops = []
     swarm = {k: rng.random() < 0.7 for k in ("parse_text", "parse_file", "parse_broken", "verify", "layout", "reflection", "clock")}
@@ -340,7 +364,12 @@ def judge_run(pool, cfg, sids, ops, probes=None, tr=None, distinct=None):
     probes = probes if probes is not None else Counter()
     w = {"schemas": {s: pool[s] for s in sids}, "ops": ops, "clock0": cfg["clock0"], "user": cfg["user"],
          "host": cfg["host"], "listperm": cfg["listperm"], "tz": cfg.get("tz", "UTC"),
-         "lc_all": cfg.get("lc_all", "C"), "columns": cfg.get("columns", 80), "cwd": cfg.get("cwd", "verif")}
+         "lc_all": cfg.get("lc_all", "C"), "columns": cfg.get("columns", 80), "cwd": cfg.get("cwd", "verif"),
+         "keep_generators": bool(cfg.get("keep_generators")), "optimize": bool(cfg.get("optimize"))}
+    if w["keep_generators"]:
+        probes["generator_objects_kept"] += 1
+    if w["optimize"]:
+        probes["worker_under_python_O"] += 1
     out = run_worker(w, cfg["hashseed"])
     viol = []
     evals = 0
@@ -464,7 +493,7 @@ def minimise(v):
                 head = []
     ops = head + [last]
     for k, pristine in (("hashseed", 0), ("clock0", 1_700_000_000), ("user", "simuser"), ("host", "simhost"), ("listperm", 0), ("tz", "UTC"),
-                        ("lc_all", "C"), ("columns", 80), ("cwd", "verif")):
+                        ("lc_all", "C"), ("columns", 80), ("cwd", "verif"), ("keep_generators", False), ("optimize", False)):
         if cfg.get(k, pristine) != pristine:
             c2 = dict(cfg, **{k: pristine})
             if fails(ops, c2):
@@ -474,6 +503,6 @@ def minimise(v):
     out = dict(v, workload=dict(w, ops=ops, cfg=cfg), minimised=True)
     vs = [x for x in check_workload(out["workload"]) if x["signature"] == key]
     if vs:
-        needs = [k for k, p in (("hashseed", 0), ("clock0", 1_700_000_000), ("user", "simuser"), ("host", "simhost"), ("listperm", 0), ("tz", "UTC"), ("lc_all", "C"), ("columns", 80), ("cwd", "verif")) if cfg.get(k, p) != p]
+        needs = [k for k, p in (("hashseed", 0), ("clock0", 1_700_000_000), ("user", "simuser"), ("host", "simhost"), ("listperm", 0), ("tz", "UTC"), ("lc_all", "C"), ("columns", 80), ("cwd", "verif"), ("keep_generators", False), ("optimize", False)) if cfg.get(k, p) != p]
         out["message"] = vs[0]["message"] + f" [minimised: {len(ops)} op(s); non-pristine ingredients still needed: {needs or 'none (history / tree reuse only)'}]"
     return out
